@@ -210,6 +210,52 @@ def spec05 (inp : Input) : List (String × String) :=
     ++ (if toGen inp then (leavesOf inp.dest).filterMap (fun l => (optV (specTo inp l)).map (fun v => ("to:" ++ joinPath l.path, v))) else [])
     ++ (if fromGen inp then (leavesOf inp.src).filterMap (fun l => (optV (specFrom inp l)).map (fun v => ("from:" ++ joinPath l.path, v))) else [])
 
+/-! ## Round trip: FromX (ToX v) -/
+
+/-- what FromX statement `c` stores when it runs on the result `wTo` of ToX (fully populated source):
+    (source leaf, value). Mapper methods on the way back are left out of the observation. -/
+def rtValue (inp : Input) (wTo : WSt) (c : Claim) : Option (String × V) :=
+  match resolveField inp.dest c.rd, resolveField inp.src c.wr with
+  | some dl, some sl =>
+    (match c.strat with
+     | .func _ => none
+     | _ => some (joinPath sl.path, wTo.get (joinPath dl.path)))
+  | _, _ => none
+
+def fromFuncLeaves (inp : Input) : List String :=
+  (plan inp).fromStmts.filterMap (fun c => match c.strat, resolveField inp.src c.wr with
+    | .func _, some sl => some (joinPath sl.path)
+    | _, _ => none)
+
+/-- model: the source leaves after `new(S).FromX(s.ToX())` -/
+def obsRT (inp : Input) : List (String × String) :=
+  if !(toGen inp && fromGen inp) || !modelCompiles inp || inp.srcNew || inp.destNew then [] else
+  match execTo inp [], execFrom inp [] with
+  | .value w, .value _ =>
+    let vals := (plan inp).fromStmts.filterMap (rtValue inp w)
+    let skip := fromFuncLeaves inp
+    (leavesOf inp.src).filterMap (fun l =>
+      let p := joinPath l.path
+      if skip.contains p then none
+      else
+        let v : V := match vals.reverse.find? (fun (e : String × V) => e.1 == p) with
+          | some e => e.2
+          | none => .zero
+        some ("rt:" ++ p, v.show))
+  | _, _ => []
+
+/-- spec: a source leaf that is paired with a destination leaf of IDENTICAL type (assignment both
+    ways, the only candidates of each other) holds its own value again -/
+def specRT (inp : Input) : List (String × String) :=
+  if !(toGen inp && fromGen inp) || inp.srcNew || inp.destNew then [] else
+  (leavesOf inp.src).filterMap (fun s =>
+    match candsFrom inp s with
+    | [(d, .assign)] =>
+      (match candsTo inp d with
+       | [(s', .assign)] => if s'.path == s.path then some ("rt:" ++ joinPath s.path, (readLeaf [] s).show) else none
+       | _ => none)
+    | _ => none)
+
 /-! ## Regions -/
 
 def levelNames : Tree → List String
